@@ -44,6 +44,12 @@ def cases(seed, tier):
         out.append({"group": "extra", "kind": "reassign", "seed": sub_seed(seed, "c06xrs", i), "method": methods[i % 3], "withM": i % 2 == 0,
                     "n": rng.choice([4, 6, 7]), "neig": rng.choice([2, 3]), "mode": rng.choice(["lowest", "uppest"]),
                     "maskA": [1, 1, 1], "maskM": [1, 1], "bck": rng.choice(["default", "tight"]), "order": 1, "reassign_m": rng.random() < 0.5})
+    # one of the two operators has NO tensor parameter at all (its _getparamnames returns []): the other one's tensors still get their gradients
+    for i in range(30 if tier == "quick" else 300):
+        rng = random.Random(sub_seed(seed, "c06xn", i))
+        out.append({"group": "extra", "kind": "noparam", "seed": sub_seed(seed, "c06xns", i), "method": methods[i % 3], "withM": True, "noparam": ["A", "M"][(i // 3) % 2],
+                    "n": rng.choice([4, 6, 8]), "neig": rng.choice([1, 2, 3]), "mode": rng.choice(["lowest", "uppest"]),
+                    "maskA": [1, 1, 1], "maskM": [1, 1], "bck": rng.choice(["default", "tight", "exactsolve"]), "order": 2 if i % 4 == 0 else 1})
     return out
 
 
@@ -136,6 +142,18 @@ def run_case(desc):
     neig = min(neig, n)
     idx = list(range(neig)) if desc["mode"] == "lowest" else list(range(n - neig, n))
     AOp, MOp = _ops()
+    if desc.get("noparam") == "A":
+        desc = dict(desc, maskA=[0, 0, 0])
+
+        class AOp(AOp):                                   # noqa: F811
+            def _getparamnames(self, prefix=""):
+                return []
+    elif desc.get("noparam") == "M":
+        desc = dict(desc, maskM=[0, 0])
+
+        class MOp(MOp):                                   # noqa: F811
+            def _getparamnames(self, prefix=""):
+                return []
     ngen = 2 if desc["kind"] == "reassign" else 1
     gens = [_gen(n, tg, withM, desc["maskA"], desc["maskM"]) for _ in range(ngen)]
     # separated spectra only
@@ -228,6 +246,8 @@ def run_case(desc):
         obs.check(err <= tol * sc, "extra:grad1:%s:%s" % (role, mech), "first-order gradient w.r.t. %s differs from the dense generalised eigenproblem's by %.3e (scale %.2e; "
                   "masks A=%s M=%s)" % (nm, err, sc, desc["maskA"], desc["maskM"]))
     obs.count("extra_first_order_compared")
+    if desc.get("noparam"):
+        obs.count("extra_noparam_operator_compared")
     if desc["maskM"] == [0, 1] and withM:
         obs.count("extra_first_M_param_frozen")
     if second and g2 is not None:
